@@ -107,7 +107,7 @@ def _gen_build(r, g, class_default):
                     v = _sv(g.tok(t))
                 st['items'].append([dk, v])
     fams = [r.choice(['call', 'call', 'bind', 'xrefcall', 'eval', 'fstr', 'import', 'rec', 'boxinc', 'chain', 'evalprobe',
-                      'evalattr', 'aynscfg', 'reclist', 'recxref', 'inclist', 'boxwhole', 'boxwhole', 'nestbox', 'nestbox'])
+                      'evalattr', 'aynscfg', 'reclist', 'recxref', 'inclist', 'boxwhole', 'boxwhole', 'nestbox', 'nestbox', 'pathcall', 'prevmove'])
             for _ in range(r.randrange(1, 5))]
     # a mapping-valued data entry whose members have their own taint (read member-wise by evaluated code)
     box_key = None
@@ -119,6 +119,7 @@ def _gen_build(r, g, class_default):
         stages[0]['items'].append([box_key, '{p: ' + _sv(g.tok(t0)) + ', q: ' + q_val + '}'])
         if r.random() < 0.5:
             stages[0]['items'].append(['dbox_alias', '!xref dbox.p'])
+    moved = set()
     for fi, fam in enumerate(fams):
         key = f'{fam[0]}{fi}'
         first = r.randrange(n_stage)
@@ -260,6 +261,33 @@ def _gen_build(r, g, class_default):
                 fn = g.fname('box')
                 g.files[fn] = '{c: ' + _call(g, 'U', 'call') + '}\n'
                 v = '!unsafe {inc: !include ' + fn + '}'
+            elif fam == 'pathcall':
+                # a !path assembled from components of mixed taint, consumed by a call or by evaluated code
+                comps = [_sv(g.tok(t)), ('!unsafe ' + _sv(g.tok('U'))) if r.random() < 0.6 else _sv(g.tok(t)), _sv(g.tok(t))]
+                r.shuffle(comps)
+                pnode = '!path' + r.choice(['', ':cwd', ':abs']) + ' [' + ', '.join(comps[:r.randrange(2, 4)]) + ']'
+                c = r.randrange(3)
+                if c == 0:
+                    v = _call(g, t, r.choice(['call', 'bind']), args={'a': pnode})
+                elif c == 1:
+                    st['items'].append([key + 'p', pnode])
+                    v = _call(g, t, 'call', args={'a': f'!xref {key}p'})
+                else:
+                    st['items'].append([key + 'p', pnode])
+                    v = '!eval ' + emit.scalar_text(f"rec('{g.tok(t)}', str({key}p))")
+            elif fam == 'prevmove':
+                # content below an !unsafe mapping, moved to a safe place by a later stage (!prev takes the node itself)
+                if base:
+                    inner = r.choice(['!eval ' + emit.scalar_text(f"rec('{g.tok('U')}', 1)"), _call(g, 'U', 'call', args={}), '!import simrec.v_' + g.tok('U'), _sv(g.tok('U'))])
+                    st['items'].append([key + 'v', '!unsafe {x: ' + inner + ', note: 1}'])
+                    continue
+                if key in moved:
+                    continue
+                moved.add(key)
+                st['items'].append([key + 'u', _call(g, t, 'call', args={'a': f'!xref {key}'})])
+                v = r.choice([f'!prev {key}v.x', '{deep: {er: !prev ' + key + 'v.x}}'])
+                if v.startswith('{'):
+                    st['items'][-1][1] = _call(g, t, 'call', args={'a': f'!xref {key}.deep.er'})
             st['items'].append([key, v])
     # a witness: an unsafe dynamic node under a key nothing else writes
     if r.random() < 0.22:
@@ -432,6 +460,23 @@ def _executed_outputs(cfg, out, source=None):
     return out
 
 
+def _unsafety_is_marked(node, parent_safe):
+    """True iff every unsafe node of the tree carries an explicit mark itself or sits below an unsafe node."""
+    from awesomeyaml.nodes.composed import ComposedNode
+    safe = bool(node.ayns.safe)
+    if not safe and parent_safe and getattr(node, '_safe', None) is not False:
+        return False
+    if isinstance(node, ComposedNode):
+        return all(_unsafety_is_marked(c, safe) for c in node._children.values())
+    return True
+
+
+def _unsafe_leaves(root):
+    """Values of the unsafe scalar nodes (a dump may spell a node differently - !path becomes a mapping - but keeps its leaves)."""
+    from awesomeyaml.nodes.composed import ComposedNode
+    return sorted(repr(str(n)) for _, n in root.ayns.nodes_with_paths() if not isinstance(n, ComposedNode) and not n.ayns.safe)
+
+
 def _client(th, out):
     import pickle
     from awesomeyaml import Builder, Config, EvalContext, errors
@@ -476,14 +521,16 @@ def _client(th, out):
                     root = copy.deepcopy(root)
                 elif route == 'dump_reparse':
                     # the merged tree written out as YAML text and read again (all sources were safe ones): marks must survive
-                    # (content whose unsafety is that of its source or of the include naming its file carries no mark a dump could keep)
-                    if all(getattr(n, '_default_safe', True) is not False for _, n in root.ayns.nodes_with_paths()):
-                        before = {str(p_) for p_, n in root.ayns.nodes_with_paths() if not n.ayns.safe}
+                    # (content whose unsafety is that of its source, of the include naming its file, or of a mapping it was moved out
+                    # of carries no mark of its own and none on its path: nothing a dump could write down)
+                    if _unsafety_is_marked(root, True):
+                        before = _unsafe_leaves(root)
                         b2 = Builder()
                         b2.add_source(ayaml.dump(root), raw_yaml=True)
                         root = b2.build()
                         rec['dumped'] = True
-                        rec['marks_lost'] = sorted(before - {str(p_) for p_, n in root.ayns.nodes_with_paths() if not n.ayns.safe})
+                        after = _unsafe_leaves(root)
+                        rec['marks_lost'] = sorted(x for x in set(before) if before.count(x) > after.count(x))
                 if route == 'evalctx':
                     cfg = EvalContext().evaluate(root)
                 else:
